@@ -385,8 +385,14 @@ pub mod collections {
         }
     }
 
+    /// Two list models: the default keeps the elements in a heap `Vec` (cheap to move, elements behind one
+    /// pointer); feature `inline_list` keeps them inside the struct (no pointer to case-split on when an element
+    /// is read through a symbolic map cell, but large structs to move). Harnesses choose with `ilist=1`.
+    #[cfg(not(feature = "inline_list"))]
     pub mod linked_list {
         use crate::real::vec::Vec;
+        /// (the heap-backed list has no capacity limit; the constant exists so that callers can bound tests)
+        pub const LCAP: usize = 4;
 
         #[derive(Debug, Clone, PartialEq, Eq)]
         pub struct LinkedList<T> {
@@ -480,6 +486,229 @@ pub mod collections {
             type IntoIter = IntoIter<T>;
             fn into_iter(self) -> IntoIter<T> {
                 IntoIter { inner: core::mem::ManuallyDrop::into_inner(self.v).into_iter() }
+            }
+        }
+        impl<'a, T> IntoIterator for &'a LinkedList<T> {
+            type Item = &'a T;
+            type IntoIter = Iter<'a, T>;
+            fn into_iter(self) -> Iter<'a, T> {
+                self.iter()
+            }
+        }
+        impl<T> FromIterator<T> for LinkedList<T> {
+            fn from_iter<I: IntoIterator<Item = T>>(it: I) -> Self {
+                let mut l = LinkedList::new();
+                for x in it {
+                    l.push_back(x);
+                }
+                l
+            }
+        }
+        impl<T, const N: usize> From<[T; N]> for LinkedList<T> {
+            fn from(a: [T; N]) -> Self {
+                let mut l = LinkedList::new();
+                for x in a {
+                    l.push_back(x);
+                }
+                l
+            }
+        }
+    }
+
+    #[cfg(feature = "inline_list")]
+    pub mod linked_list {
+        use core::mem::ManuallyDrop;
+
+        const fn parse_cap(s: &str) -> usize {
+            let b = s.as_bytes();
+            let mut i = 0;
+            let mut v = 0;
+            while i < b.len() {
+                v = v * 10 + (b[i] - b'0') as usize;
+                i += 1;
+            }
+            v
+        }
+        /// Capacity of one list (values under one option number); exceeding it trips a model assertion.
+        pub const LCAP: usize = match option_env!("VERIF_LIST_CAP") {
+            Some(s) => parse_cap(s),
+            None => 4,
+        };
+
+        /// Inline fixed-capacity list: the elements live inside the struct (and therefore inside the map
+        /// cell), so reaching an element never goes through a heap pointer that CBMC has to case-split on.
+        /// Every loop runs over concrete indices.
+        pub struct LinkedList<T> {
+            a: ManuallyDrop<[Option<T>; LCAP]>,
+            n: usize,
+        }
+        impl<T> Default for LinkedList<T> {
+            fn default() -> Self {
+                Self::new()
+            }
+        }
+        impl<T: Clone> Clone for LinkedList<T> {
+            fn clone(&self) -> Self {
+                let mut l = Self::new();
+                let mut j = 0;
+                while j < LCAP {
+                    if j < self.n {
+                        l.a[j] = self.a[j].clone();
+                    }
+                    j += 1;
+                }
+                l.n = self.n;
+                l
+            }
+        }
+        impl<T: PartialEq> PartialEq for LinkedList<T> {
+            fn eq(&self, o: &Self) -> bool {
+                if self.n != o.n {
+                    return false;
+                }
+                let mut j = 0;
+                while j < LCAP {
+                    if j < self.n && self.a[j] != o.a[j] {
+                        return false;
+                    }
+                    j += 1;
+                }
+                true
+            }
+        }
+        impl<T: Eq> Eq for LinkedList<T> {}
+        impl<T: core::fmt::Debug> core::fmt::Debug for LinkedList<T> {
+            fn fmt(&self, f: &mut core::fmt::Formatter<'_>) -> core::fmt::Result {
+                f.debug_list().entries(self.iter()).finish()
+            }
+        }
+        pub struct Iter<'a, T> {
+            a: &'a [Option<T>; LCAP],
+            i: usize,
+            n: usize,
+        }
+        impl<'a, T> Iterator for Iter<'a, T> {
+            type Item = &'a T;
+            fn next(&mut self) -> Option<&'a T> {
+                if self.i < self.n && self.i < LCAP {
+                    let r = self.a[self.i].as_ref();
+                    self.i += 1;
+                    r
+                } else {
+                    None
+                }
+            }
+            fn size_hint(&self) -> (usize, Option<usize>) {
+                let r = self.n - self.i;
+                (r, Some(r))
+            }
+            fn nth(&mut self, k: usize) -> Option<&'a T> {
+                let j = self.i + k;
+                if j < self.n && j < LCAP {
+                    self.i = j + 1;
+                    self.a[j].as_ref()
+                } else {
+                    self.i = self.n;
+                    None
+                }
+            }
+        }
+        impl<T> ExactSizeIterator for Iter<'_, T> {}
+        pub struct IterMut<'a, T> {
+            p: *mut Option<T>,
+            i: usize,
+            n: usize,
+            _m: core::marker::PhantomData<&'a mut T>,
+        }
+        impl<'a, T> Iterator for IterMut<'a, T> {
+            type Item = &'a mut T;
+            fn next(&mut self) -> Option<&'a mut T> {
+                if self.i < self.n && self.i < LCAP {
+                    // each index is handed out once, so the &mut references do not alias
+                    let cell: &'a mut Option<T> = unsafe { &mut *self.p.add(self.i) };
+                    self.i += 1;
+                    cell.as_mut()
+                } else {
+                    None
+                }
+            }
+        }
+        pub struct IntoIter<T> {
+            l: LinkedList<T>,
+            i: usize,
+        }
+        impl<T> Iterator for IntoIter<T> {
+            type Item = T;
+            fn next(&mut self) -> Option<T> {
+                if self.i < self.l.n && self.i < LCAP {
+                    let r = self.l.a[self.i].take();
+                    self.i += 1;
+                    r
+                } else {
+                    None
+                }
+            }
+        }
+        impl<T> LinkedList<T> {
+            pub fn new() -> Self {
+                LinkedList { a: ManuallyDrop::new(core::array::from_fn(|_| None)), n: 0 }
+            }
+            pub fn push_back(&mut self, t: T) {
+                assert!(self.n < LCAP, "verif model: LinkedList capacity exceeded");
+                let mut item = Some(t);
+                let mut j = 0;
+                while j < LCAP {
+                    if j == self.n {
+                        self.a[j] = item.take();
+                    }
+                    j += 1;
+                }
+                self.n += 1;
+            }
+            pub fn front(&self) -> Option<&T> {
+                if self.n == 0 {
+                    None
+                } else {
+                    self.a[0].as_ref()
+                }
+            }
+            pub fn back(&self) -> Option<&T> {
+                let mut j = LCAP;
+                while j > 0 {
+                    if j == self.n {
+                        return self.a[j - 1].as_ref();
+                    }
+                    j -= 1;
+                }
+                None
+            }
+            pub fn len(&self) -> usize {
+                self.n
+            }
+            pub fn is_empty(&self) -> bool {
+                self.n == 0
+            }
+            pub fn clear(&mut self) {
+                let mut j = 0;
+                while j < LCAP {
+                    self.a[j] = None;
+                    j += 1;
+                }
+                self.n = 0;
+            }
+            pub fn iter(&self) -> Iter<'_, T> {
+                Iter { a: &self.a, i: 0, n: self.n }
+            }
+            pub fn iter_mut(&mut self) -> IterMut<'_, T> {
+                let n = self.n;
+                IterMut { p: self.a.as_mut_ptr(), i: 0, n, _m: core::marker::PhantomData }
+            }
+        }
+        impl<T> IntoIterator for LinkedList<T> {
+            type Item = T;
+            type IntoIter = IntoIter<T>;
+            fn into_iter(self) -> IntoIter<T> {
+                IntoIter { l: self, i: 0 }
             }
         }
         impl<'a, T> IntoIterator for &'a LinkedList<T> {
